@@ -331,7 +331,7 @@ static void configurations()
 int main(int argc, char** argv)
 {
 	mc::init(argc, argv);
-	if(mc::ctx().replay) { printf("%s\n", mc::ctx().replay_case.c_str()); return 0; }
+	if(mc::ctx().replay) { printf("%s\n(no single-case replay for this part; use ./vcheck --replay <file>, which re-runs the enumeration for this key)\n", mc::ctx().replay_case.c_str()); return 0; }
 	g_dir = mc::ctx().tmp;
 	mc::bound("rule", "round trip: shapes {1,2,3,7,200}x{1,2,5,12} x 4 value patterns (integers, six-digit decimals over 600 decades, long fractions, dyadics) x headers {0,1,3 lines} x 3 unit arrangements over 60 decades, lists, both Export_Function overloads; file states: every sequence of two (thorough: three) exports to one path followed by an import; In_Units overloads on dyadic data; unit constants in the four configurations g++/clang++ x -O0/-O2 read after start-up; state = file contents / build configuration, transition = one export, import or constant read");
 	unsigned long long unit = 0;
